@@ -7,5 +7,5 @@ EXTENDS Backend, Json
 Emit == (~Running(s)) =>
           PrintT("IDLE " \o ToJson([inj |-> s.inj, hist |-> s.hist, outs |-> s.outs, db |-> s.db,
                                     nseq |-> s.nseq, devs |-> s.devs, badhit |-> s.badhit,
-                                    reg |-> s.reg]))
+                                    reg |-> s.reg, noprov |-> s.noprov]))
 =============================================================================
